@@ -318,6 +318,22 @@ def set_options(t):
 AMBIENT: dict = {}
 
 
+LSB0_ON = 0
+
+
+def lsb0_on_value():
+    """True, or (for a share of the cases, chosen by Ctx.run_case and recorded in the case as '_on') another truthy value."""
+    if not LSB0_ON:
+        return True
+    if LSB0_ON == 4:
+        try:
+            import numpy
+            return numpy.bool_(True)
+        except Exception:  # noqa: BLE001
+            return 1
+    return (True, 1, 2, 'yes')[LSB0_ON]
+
+
 @contextlib.contextmanager
 def options(lsb0=None, bytealigned=None, mxfp_overflow=None, no_color=None):
     before = get_options()
@@ -329,7 +345,7 @@ def options(lsb0=None, bytealigned=None, mxfp_overflow=None, no_color=None):
             mxfp_overflow = AMBIENT['mxfp_overflow']
     try:
         if lsb0 is not None:
-            o.lsb0 = lsb0
+            o.lsb0 = lsb0_on_value() if lsb0 is True else lsb0
         if bytealigned is not None:
             o.bytealigned = bytealigned
         if mxfp_overflow is not None:
